@@ -224,6 +224,34 @@ def _union_job(job):
     return acc
 
 
+def _big_job(job):
+    """documents far beyond the bounds (giant: ~2 100 lines; aligned: rare rows on power-of-two lines) x every single include, every single exclude and a few pairs"""
+    from .. import docspace as D
+    which, seed, part = job
+    acc = Acc()
+    m = D.giant_model(seed, rows=1650) if which == 'giant' else D.aligned_model(seed, int(which[7:]))
+    doc, _ = kp.loads(m.text())
+    sels = [((c,), None) for c in sorted(catref.ALL)] + [(None, (c,)) for c in sorted(catref.ALL)] + \
+           [(('DECORATION', 'BARLINES'), None), (('SIGNATURES',), ('CLEF',)), (('CORE', 'SIGNATURES'), ('NOTE',)), (None, ('CORE', 'BARLINES'))]
+    for k, (inc, exc) in enumerate(sels):
+        if k % 4 != part:
+            continue
+        S = catref.selected(inc, exc)
+        acc.count('evaluations')
+        acc.count('transitions')
+        case = {'big': [which, seed, part], 'doc': which, 'include': inc, 'exclude': exc}
+        try:
+            out = kp.dumps(doc, encoding=kp.Encoding.eKern, **kw_of(inc, exc))
+        except Exception as e:  # noqa
+            acc.violation(Viol('filter-big-document', 'raises', case, 'text', f'{type(e).__name__}: {str(e)[:100]}'))
+            continue
+        acc.count('traces')
+        acc.nontriv((which, k))
+        for sym, detail in compare_export(m, out, 'ekern', None, S)[:1]:
+            acc.violation(Viol('filter-big-document', sym, case, 'unfiltered export minus the unselected material', detail))
+    return acc
+
+
 def run(ctx):
     quick = ctx.quick
     fam = family(ctx.tier, ctx.seed)
@@ -235,6 +263,7 @@ def run(ctx):
     ctx.assumptions = ['selected set = include closure minus exclude closure over the README tree (kv/catref.py); C11 decides that kernpy computes it for every pair',
                        'a chord left with only null notes makes its row optional (DESIGN §2.1)', 'key designations (*C:) not generated: category ambiguous']
     nparts = 4
+    ctx.pmap(_big_job, [(w, ctx.seed, p_) for w in ('giant', 'aligned128', 'aligned1100') for p_ in range(4)], chunksize=1)
     ctx.pmap(_doc_job, [(di, ctx.tier, ctx.seed, p, nparts) for di in range(len(fam)) for p in range(nparts)], chunksize=1)
     ctx.pmap(_selset_job, [(lo, min(lo + 8, 705), not quick) for lo in range(0, 705, 8)], chunksize=1)
     ntop = len(catref.TOP)
@@ -244,6 +273,8 @@ def run(ctx):
 
 def replay(case):
     acc = Acc()
+    if 'big' in case:
+        return _big_job(tuple(case['big'])).viol
     if case.get('options_object'):
         fam = family(case.get('tier', 'quick'), case.get('seed', 0))
         di = [m.text() for _, m in fam].index(case['text'])
